@@ -3,3 +3,5 @@
 package transport
 
 func verifYield(string, interface{}) {}
+
+func verifFault(string, interface{}) error { return nil }
